@@ -75,17 +75,24 @@ class Prover:
         self.stats["z3_unknown"] += 1
         if not self.use_cvc5 or arrays:
             return "unknown", None
+        cands = [s]
         if self.fresh_smt:
-            s = z3.SolverFor("QF_BV")
-            s.add(*pc)
-            s.add(z3.Not(c))
-        for extra in (["--solve-bv-as-int=sum"], []):
+            f = z3.SolverFor("QF_BV")
+            f.add(*pc)
+            f.add(z3.Not(c))
+            # fresh_smt == "both": the original assertions first, then z3's preprocessed solver state
+            # (either can be the easier one for cvc5); only 'unsat' is taken from the preprocessed form
+            cands = [f, s] if self.fresh_smt == "both" else [f]
+        for extra, s in [(e, x) for e in (["--solve-bv-as-int=sum"], []) for x in cands]:
             t0 = time.time()
             v, vals = run_cvc5(s, extra, self.cvc5_timeout_s)
             self.stats["solver_s"] += time.time() - t0
             if v == "unsat":
                 self.stats["cvc5_unsat"] += 1
                 return "unsat", None
+            if v == "sat" and len(cands) > 1 and s is cands[1]:
+                self.stats["cvc5_unknown"] += 1
+                continue
             if v == "sat":
                 self.stats["cvc5_sat"] += 1
                 # turn cvc5's assignment into a z3 model by solving with the values pinned
